@@ -51,11 +51,25 @@ class FakeSocket:
     def listen(self, *a):
         self.listening = True
 
+    def _sync_refusal(self, addr):
+        """addresses the kernel refuses synchronously (multicast / broadcast / this-network): no handshake is started"""
+        host = str(addr[0])
+        first = host.split('.')[0]
+        return host == '255.255.255.255' or (first.isdigit() and 224 <= int(first) <= 239) or host in self.net.unreachable
+
     def connect_ex(self, addr):
         self.remote = (addr[0], addr[1])
         self.local = (self.owner.host if self.owner else '0.0.0.0', self.net.ephemeral())
+        if self._sync_refusal(addr):
+            return errno.ENETUNREACH
         self.net.dialling.append(self)
         return errno.EINPROGRESS
+
+    def connect(self, addr):
+        e = self.connect_ex(addr)
+        if e == errno.EINPROGRESS:
+            raise BlockingIOError(errno.EINPROGRESS, "Operation now in progress")
+        raise OSError(e, "Network is unreachable")
 
     def accept(self):
         if not self.backlog:
@@ -227,6 +241,7 @@ class NullDisk:
 class Net:
     def __init__(self, clock=None):
         self.listeners = {}
+        self.unreachable = set()
         self.dialling = []
         self.connections = []
         self.current = None
